@@ -97,7 +97,9 @@ func (c *deployCommand) preRun(cmd *cobra.Command, args []string) error {
 	}
 
 	if c.args.ServiceOptions.TLSEnabled {
-		if len(c.args.ServiceOptions.Hosts) == 0 {
+		// The options have been normalized by now, which represents "no host"
+		// as a single empty host.
+		if len(c.args.ServiceOptions.Hosts) == 0 || slices.Contains(c.args.ServiceOptions.Hosts, "") {
 			return fmt.Errorf("host must be set when using TLS")
 		}
 
